@@ -112,3 +112,22 @@ claim("C02", "other",
       "coordinate-frame type inference on the value graph (R-FRAME), non-commutative normal form identity (R-ALG), "
       "call-site argument-role rule over the whole package (R-PBC)",
       "DESIGN.md section 4, C02")
+
+claim("C01", "other",
+      "For all 12 configurations {2D,3D} x {orthogonal, triclinic} x {x, xs, xu} the reader is abstractly interpreted (header "
+      "loops unrolled, atom loop symbolic, every readline a distinct line) and each field handed to SingleSnapshot is resolved "
+      "to an exact expression in the file's tokens. Decided for all files: nine header lines consumed (third bounds line also "
+      "in 2D), timestep/N from lines 2/4, style from line 9, N atom lines, EOF sentinel; bounds, box lengths, triclinic real "
+      "bounds (min/max of tilt combinations, exact |.| rewriting) and every h-matrix entry equal the LAMMPS conventions; scaled "
+      "coordinates map through that same h-matrix plus the real lower corner (found G1, G2); unwrapped coordinates verbatim; "
+      "wrapped orthogonal coordinates +L below lo / -L above hi; rows placed by atom id - 1, type from column 2, coordinates "
+      "from columns 3..2+ndim counted from the front (extra trailing columns ignored); every (cell, style) has an atom branch "
+      "(found G3); wrappers append in read order, count once per frame, stop on the sentinel, one handle; every DumpFileType "
+      "member is mapped and receives exactly its parameters. Not decided: float()/int() parsing of numerals, malformed files, "
+      "excursions larger than one box length.",
+      "Trusted: str.split / float / int semantics, numpy zeros/vstack/diag/where semantics as modelled in pmsa/arr.py; the "
+      "LAMMPS conventions transcribed in pmsa/checks/readerlib.py (reference_cell).",
+      "per-configuration abstract interpretation with small-array resolution; exact algebraic comparison of resolved fields "
+      "with the LAMMPS reference (R-ALG), line-protocol counting (R-PROTO), index-role rules (R-IDX), branch exhaustiveness "
+      "(R-SIB), loop/typestate rules for wrappers, dispatch table",
+      "DESIGN.md section 4, C01")
